@@ -10,9 +10,11 @@ import (
 	"verifharness/internal/pki"
 )
 
-// DTLCPTimeout is the initial retransmission timeout used for DTLCP histories (short: the
-// in-memory network has no latency).
-var DTLCPTimeout = 40 * time.Millisecond
+// DTLCPTimeout is the initial retransmission timeout used for DTLCP histories. The in-memory
+// network loses nothing and the injected damage is answered at once by an alert, so no case
+// depends on a retransmission; the timer is long so that a loaded machine never triggers a
+// spurious retransmission (retransmitted flights are C19's subject, findings F11/K1).
+var DTLCPTimeout = 3 * time.Second
 
 // dtlcpHasCCS reports whether a datagram (whole DTLCP records, 13-byte headers) contains a
 // ChangeCipherSpec record.
@@ -43,17 +45,17 @@ func dtlcpHello(ds [][]byte, typ byte) ([]byte, bool) {
 
 func dtlcpAddr(d int) *net.UDPAddr { return &net.UDPAddr{IP: net.IPv4(127, 0, 0, 1), Port: 20000 + d} }
 
-func dtlcpHandshake(dst int, server int, cs, ss []uint16, ccache, scache Cache[*dtlcp.SessionState], fault string, seed uint64) HS {
+func dtlcpHandshake(dst int, server int, cs, ss []uint16, ccache, scache Cache[*dtlcp.SessionState], fault string, seed uint64, mid func()) HS {
 	s := pki.Std()
 	rnd := hx.NewRand(seed)
 	ccfg := &dtlcp.Config{RootCAs: s.Root.Pool, ServerName: "test.example", Time: pki.NowFn, CipherSuites: cs,
-		Rand: detReader{hx.NewRand(rnd.U64())}, InitialRetransmitTimeout: DTLCPTimeout, MaxRetransmitTimeout: 4 * DTLCPTimeout}
+		Rand: detReader{hx.NewRand(rnd.U64())}, InitialRetransmitTimeout: DTLCPTimeout, MaxRetransmitTimeout: 2 * DTLCPTimeout}
 	sig, enc := s.SrvSig, s.SrvEnc
 	if server == 1 {
 		sig, enc = s.Srv2Sig, s.Srv2Enc
 	}
 	scfg := &dtlcp.Config{Certificates: []dtlcp.Certificate{pair.DCert(sig), pair.DCert(enc)}, Time: pki.NowFn, CipherSuites: ss,
-		Rand: detReader{hx.NewRand(rnd.U64())}, InitialRetransmitTimeout: DTLCPTimeout, MaxRetransmitTimeout: 4 * DTLCPTimeout}
+		Rand: detReader{hx.NewRand(rnd.U64())}, InitialRetransmitTimeout: DTLCPTimeout, MaxRetransmitTimeout: 2 * DTLCPTimeout}
 	if ccache != nil {
 		ccfg.SessionCache = ccache
 	}
@@ -73,6 +75,14 @@ func dtlcpHandshake(dst int, server int, cs, ss []uint16, ccache, scache Cache[*
 			se.OnSend = damage
 		case "cf":
 			ce.OnSend = damage
+		}
+		if mid != nil {
+			ce.OnSend = func(i int, data []byte) [][]byte {
+				if i == 0 {
+					mid()
+				}
+				return [][]byte{data}
+			}
 		}
 	})
 	h := HS{CErr: r.CErr, SErr: r.SErr}
